@@ -1,4 +1,6 @@
 """Subject parts (C10): sequential definition SubjectSeq.tla enumerated by TLC and replayed; linearizability of concurrent histories (SubjectLin.tla)."""
+import json, os, shutil
+import vlib
 import parts_pipeline as pp
 
 CLASS_PROPS = {'deliveries': ['C10'], 'getters': ['C10', 'C03'], 'hang': ['C10', 'C07'], 'panic': ['C10', 'C07'], 'ctx-nil': ['C09']}
@@ -18,6 +20,65 @@ def run_seq(rep, pid, thorough):
         cfgs.append(cfg('subjects-seq-6-replay', MaxOps=6, KindSetName='"replay"'))
         cfgs.append(cfg('subjects-seq-6-unicast', MaxOps=6, KindSetName='"unicast"'))
     pp.run(rep, pid, cfgs, modes='seq', module='SubjectGen', replay_cmd='replay-subject', class_props=CLASS_PROPS, prefix='subject.')
+
+
+def lin_part(rep, PID, n, seeds, park, kind=None):
+    d = vlib.scratch('lin-')
+    label = ('subject-lin-park' if park else 'subject-lin') + ('-' + kind if kind else '')
+    try:
+        total = nontriv = 0
+        for s in seeds:
+            out = os.path.join(d, 'h-%d.ndjson' % s)
+            scen = os.path.join(d, 's-%d.ndjson' % s)
+            vlib.run_harness(['drive-subject', '-n', str(n), '-seed', str(s), '-out', out, '-scenarios', scen] + (['-park'] if park else []) + (['-kind', kind] if kind else []))
+            v = vlib.validate_traces('SubjectLin', 'SubjectLin_C10.cfg', out, dfs=True, locate=False)
+            rep.add_states(v['result'])
+            scenarios = {}
+            for line in open(scen):
+                o = json.loads(line)
+                scenarios[o['t']] = o
+            for t in v['order']:
+                total += 1
+                lines = v['traces'][t]
+                # non-trivial: at least two threads had calls in flight at the same time
+                act = set()
+                nt = False
+                for l in lines:
+                    e = json.loads(l)
+                    if e['e'] == 'inv':
+                        if act - {e['p']}:
+                            nt = True
+                        act.add(e['p'])
+                    elif e['e'] == 'ret':
+                        act.discard(e['p'])
+                nontriv += 1 if nt else 0
+            if v['order']:
+                t0 = v['order'][0]
+                rep.sample(dict(driver=label, seed=s, history=[json.loads(x) for x in v['traces'][t0][:14]]), maxn=3)
+            for t in v['rejected']:
+                os.makedirs(os.path.join(vlib.REPLAYS, PID), exist_ok=True)
+                rp = os.path.join(vlib.REPLAYS, PID, '%s-seed%d-history%d.ndjson' % (label, s, t))
+                with open(rp, 'w') as fh:
+                    fh.write(''.join(v['traces'][t]))
+                sc = scenarios.get(t, {})
+                hang = json.loads(v['traces'][t][-1]).get('e') == 'hang'
+                desc = ('history of the real %s subject is not linearizable w.r.t. SubjectSeq (no placement of the linearization points explains the '
+                        'subscribers\' observations); scenario %s' % (sc.get('scenario', {}).get('Kind'), json.dumps(sc)[:400]))
+                rep.add_violation('%s.%s' % (label, 'hang' if hang else 'history'), desc, replay_path=rp, components=[sc.get('scenario', {}).get('Kind')])
+        rep.cov['traces_validated_against_impl'] += total
+        rep.cov['evaluations'] += total
+        rep.cov['distinct_nontrivial'] += nontriv
+        rep.parts[label] = dict(histories=total, concurrent=nontriv, seeds=list(seeds))
+    finally:
+        shutil.rmtree(d, ignore_errors=True)
+
+
+
+def replay_lin(pid, path):
+    v = vlib.validate_traces('SubjectLin', 'SubjectLin_C10.cfg', path, dfs=True, locate=False)
+    for t in v['rejected']:
+        print('VIOLATION property=%s replay=%s  # history not linearizable' % (pid, path))
+    return 1 if v['rejected'] else 0
 
 
 def replay_case(pid, path):
